@@ -88,6 +88,9 @@ def handle (ts : Toks) : String :=
             -- close() through the handle of an EARLIER stream whose id was released (closed by the device) and has since
             -- been given to another stream: that stream is closed already, nothing happens
             | ["XS", _] => (c, acc.2 ++ ["ok"])
+            -- read() through such a handle: the parked CLSE is all it has, the stream reports closed; the connection
+            -- and the id's new owner are untouched
+            | ["RS", _] => (c, acc.2 ++ ["err:closed"])
             | ["R", l, n] =>
               if have_ acc.2 l then
                 let r := readStream (l.toNat?.getD 0) (n.toNat?.getD 0) (c.dev.length + 24) c
